@@ -43,7 +43,7 @@ def module_consts(src, log, skip=()):
         name, ty, init = m.group(1), m.group(2), m.group(3).strip()
         if name in skip:
             continue
-        if re.fullmatch(r"-?[0-9][0-9_]*(?:\.[0-9_]*)?(?:_?[iuf](?:8|16|32|64|128|size))?", init) or re.fullmatch(r"-?[0-9][0-9_]*\.[0-9_]*", init):
+        if re.fullmatch(r"-?[0-9][0-9_]*(?:\.[0-9_]*)?(?:[eE][+-]?[0-9_]+)?(?:_?[iuf](?:8|16|32|64|128|size))?", init) or re.fullmatch(r"-?[0-9][0-9_]*\.[0-9_]*", init):
             out.append(f"exec const {name}: {ty} ensures {name} == {init} {{ {init} }}")
         else:
             mt = re.fullmatch(r"TimeSpec::new\(\s*(-?[0-9_]+)\s*,\s*(-?[0-9_]+)\s*\)", init)
@@ -285,13 +285,39 @@ def gen_snapshot(out_path):
                     "count": n2, "why": "the stand-in's read_volatile is an external function without postcondition (arbitrary record)"})
         # loop contract spliced between the loop header and its body
         m = list(re.finditer(r"^([ \t]*)while ([a-z_][a-z0-9_]*) > 0 \{[ \t]*$", body, re.M))
-        if len(m) != 1:
-            raise ex.ExtractError(f"snapshot: expected exactly one `while <counter> > 0 {{` loop, found {len(m)}")
-        ind, var = m[0].group(1), m[0].group(2)
-        body = body[:m[0].start()] + f"{ind}while {var} > 0\n{ind}    invariant {var} <= 1_000_000, self.snapshot_ceb == old(self).snapshot_ceb, self.snapshot_gen == old(self).snapshot_gen,\n{ind}    decreases {var},\n{ind}{{" + body[m[0].end():]
-        log.append({"item": "fn snapshot (body)", "rewrite": f"loop contract `invariant {var} <= 1_000_000, cache unchanged so far; decreases {var}` spliced after the header of `while {var} > 0`",
-                    "count": 1, "why": "inductive invariant / termination measure of the retry loop (the only annotation inside the body)"})
-        parts = {"SIG:shm.snapshot": sig, "BODY:shm.snapshot": body}
+        mf = list(re.finditer(r"^([ \t]*)for ([a-z_][a-z0-9_]*) in 0\.\.([A-Za-z0-9_]+) \{[ \t]*$", body, re.M))
+        if len(m) == 1 and not mf:
+            ind, var = m[0].group(1), m[0].group(2)
+            body = body[:m[0].start()] + f"{ind}while {var} > 0\n{ind}    invariant {var} <= 1_000_000, self.snapshot_ceb == old(self).snapshot_ceb, self.snapshot_gen == old(self).snapshot_gen,\n{ind}    decreases {var},\n{ind}{{" + body[m[0].end():]
+            log.append({"item": "fn snapshot (body)", "rewrite": f"loop contract `invariant {var} <= 1_000_000, cache unchanged so far; decreases {var}` spliced after the header of `while {var} > 0`",
+                        "count": 1, "why": "inductive invariant / termination measure of the retry loop (the only annotation inside the body)"})
+        elif len(mf) == 1 and not m:
+            # the same loop written as a bounded `for`: it terminates by construction (finite range); only
+            # the cache invariant is needed
+            ind, var, hi = mf[0].group(1), mf[0].group(2), mf[0].group(3)
+            var2 = var if var != "_" else "_verif_i"
+            body = body[:mf[0].start()] + f"{ind}for {var2} in 0..{hi}\n{ind}    invariant self.snapshot_ceb == old(self).snapshot_ceb, self.snapshot_gen == old(self).snapshot_gen,\n{ind}{{" + body[mf[0].end():]
+            log.append({"item": "fn snapshot (body)", "rewrite": f"loop contract `invariant cache unchanged so far` spliced after the header of `for {var} in 0..{hi}` (a loop over a finite range needs no termination measure)",
+                        "count": 1, "why": "inductive invariant of the retry loop (the only annotation inside the body)"})
+        else:
+            raise ex.ExtractError(f"snapshot: expected exactly one `while <counter> > 0 {{` or `for <i> in 0..<N> {{` loop, found {len(m)} + {len(mf)}")
+        # private free functions of reader.rs that the body calls (a refactoring may name a sub-expression):
+        # verbatim, without contract - the proof is about control flow and termination, so their results
+        # may stay unknown, but their own bodies must verify (no overflow, no panic)
+        helpers = []
+        for name in sorted(set(re.findall(r"(?<![.\w:])([a-z_][a-z0-9_]*)\(", body))):
+            hm = [x for x in re.finditer(r"^(?:pub(?:\([a-z]+\))? )?(?:const )?fn %s\s*[(<]" % re.escape(name), src, re.M)]
+            if len(hm) != 1:
+                continue
+            try:
+                st, _ob, en = ex.item(src, r"^(?:pub(?:\([a-z]+\))? )?(?:const )?fn %s\s*[(<]" % re.escape(name), "fn " + name)
+            except ex.ExtractError:
+                continue
+            helpers.append(src[st:en])
+            log.append({"item": f"fn {name}", "rewrite": "free helper function called by snapshot, copied verbatim (no contract)", "count": 1,
+                        "why": "so that a sub-expression moved into a helper keeps verifying"})
+        parts = {"SIG:shm.snapshot": sig, "BODY:shm.snapshot": body,
+                 "ITEM:shm.consts": "\n".join(x for x in [module_consts(src, log)] + helpers if x)}
         out = fill(open(os.path.join(VERIF, "verus", "snapshot.rs.tmpl")).read(), parts)
     except ex.ExtractError as err:
         raise Undecided("extract", "extraction anchor lost: " + str(err))
